@@ -12,3 +12,7 @@ import (
 func prepareVec(enum.AnyBatch) {}
 
 func vecExtra(*ref.Content) func(string, segment.Segment) string { return nil }
+
+func prepareVecBatch(b interface{}) {}
+
+func vecMergeOracle(seg segment.Segment, exp *ref.Content) string { return "" }
